@@ -83,6 +83,9 @@ pub struct Profile {
     pub corrupt_permille: u64,
     /// fault-free, equal stakes, constant equal link latency: one voting round is deterministic
     pub lockstep: bool,
+    /// C16 in the cluster: fault-free, but links have unequal (constant) extra delays, so that a
+    /// relay can receive the other relays' broadcasts before its own shred from the leader
+    pub asym_delays: bool,
     /// C18 in the cluster: no Byzantine nodes or crashes, one long total partition (every node on its
     /// own) so that every node's standstill detection must fire, repeatedly, until the heal
     pub standstill: bool,
@@ -107,6 +110,7 @@ impl Profile {
             forger: false,
             corrupt_permille: 0,
             lockstep: false,
+            asym_delays: false,
             standstill: false,
         }
     }
@@ -316,6 +320,15 @@ pub fn draw_cfg(p: &Profile) -> ClusterCfg {
                 FaultEvent::Stall { at_ms, ms, .. } => {
                     *at_ms = (*at_ms).min(ts);
                     *ms = (*ms).min(ts.saturating_sub(*at_ms));
+                }
+            }
+        }
+    }
+    if p.asym_delays {
+        for a in 0..n {
+            for b in 0..n {
+                if a != b && kernel::choose(CFG, 2) == 1 {
+                    net.link_extra_ms[a][b] = kernel::choose(CFG, 8) * 25;
                 }
             }
         }
